@@ -374,6 +374,73 @@ def r13f(ctx, run):
                 run.ok(mx.site(), "max(%s) of %s over %s and %s: no common type" % (order, wrapper.lower(), kn, kn))
 
 
+def r13g(ctx, run):
+    """assignments: `dest = value` is decided by expect_match(value's type -> dest's type) like every other acceptance site, unless the destination is
+    still weakly typed (an unannotated `x := 5` adapts to what it is assigned).  The plain-assignment arm of infer_expr is evaluated from source on
+    (destination type, value type) pairs in which the value's type is nominal (a distinct, or a slice / pointer / array / optional of one) and the
+    destination's is the type underneath: a sized destination must send the pair to expect_match - taking the other branch (the destination is
+    "replaced" by the value's type) accepts a `[]Meters` in a `[]i32` variable without a cast."""
+    import c07, c12
+    from absint import Obj, Term, Variant, Panic, CannotEstablish, _Return
+    V = Variant
+    G = "hir_ty/src/globals.rs"
+    fn = ctx.syn.fn("GlobalInferenceCtx::infer_expr", G)
+    arms = []
+    for m in synq.matches_on(fn.body):
+        if "quick_assign_op" in canon(m["e"]):
+            for h, p_, g, b, a in synq.match_table(m):
+                if canon(a["p"]) == "None" and "expect_match" in canon(b):
+                    arms.append((b, a))
+    if len(arms) != 1:
+        raise LookupError("the plain-assignment arm (`None`) of infer_expr's match on quick_assign_op: %d" % len(arms))
+    body, arm = arms[0]
+    QI = c07.make_ty_interp(ctx)
+    world = c12.World(ctx)
+    i32 = V("Ty::IInt", {"0": 32})
+    meters = V("Ty::Distinct", {"uid": 1, "sub_ty": i32})
+    wrap = {
+        "T": lambda t: t, "[]T": lambda t: V("Ty::Slice", {"sub_ty": t}), "^T": lambda t: V("Ty::Pointer", {"mutable": False, "sub_ty": t}),
+        "^mut T": lambda t: V("Ty::Pointer", {"mutable": True, "sub_ty": t}), "[2]T": lambda t: V("Ty::ConcreteArray", {"size": 2, "sub_ty": t}),
+        "?T": lambda t: V("Ty::Optional", {"sub_ty": t}), "[]^T": lambda t: V("Ty::Slice", {"sub_ty": V("Ty::Pointer", {"mutable": False, "sub_ty": t})}),
+    }
+    n = 0
+    for wn, w in wrap.items():
+        for dn, d_, vn, v_ in (("i32", i32, "Meters", meters), ("Meters", meters, "i32", i32)):
+            D, Vt = w(d_), w(v_)
+            calls = []
+
+            class RI(QI):
+                def default_method(self, recv, m_, args, e):
+                    if isinstance(recv, Obj) and recv.name == "self" and m_ in ("replace_weak_tys", "expect_match"):
+                        calls.append((m_, args))
+                        return True
+                    return super().default_method(recv, m_, args, e)
+            it = RI(funcs={"ExpectedTy::Concrete": lambda i, a: ("concrete", a[0])}) if False else RI()
+            it.funcs["ExpectedTy::Concrete"] = lambda i, a: ("concrete", a[0])
+            env = {"self": Obj("self"), "assign_body": Obj("assign_body", dest=Term("dest"), value=Term("value")), "dest_ty": D, "value_ty": Vt}
+            desc = "%s = %s" % (wn.replace("T", dn), wn.replace("T", vn))
+            key = "assign:" + desc
+            try:
+                try:
+                    it.eval(body, env)
+                except _Return:
+                    pass
+                fits = world.call("can_fit_into", Vt, [D], top=True)
+                weak_dest = world.call("might_be_weak", D, [], top=True)
+            except (Panic, CannotEstablish) as c:
+                run.finding(fn.qual, key, fn.file, arm["ln"], "cannot establish how the assignment %s is decided: %s" % (desc, getattr(c, "what", c)))
+                continue
+            n += 1
+            checked = any(m_ == "expect_match" and a[0] == Vt and a[1] == ("concrete", D) for m_, a in calls)
+            run.check(checked or fits is True or weak_dest is True, fn.site(arm["ln"]), "%s: %s" % (desc, "sent to expect_match" if checked else "accepted (the value fits)"), fn.qual, key,
+                      fn.file, arm["ln"],
+                      "the assignment `%s` is accepted without asking expect_match: the arm calls %s - the value's type does not fit the destination's (can_fit_into is false) and "
+                      "the destination is not weakly typed, so a value of a nominal type ends up in a variable of another type without a cast"
+                      % (desc, [m_ for m_, a in calls] or "nothing"))
+    if n < 10:
+        raise LookupError("assignment pairs evaluated: %d" % n)
+
+
 def rules(ctx):
     return [
         Rule("R13.a", "can_fit_into evaluated on symbolic nominal types: same type accepted; different uid, or same declaration uid with different arguments, rejected; variant fits only its own enum; wrapper never accepted as its underlying type", 20, r13a),
@@ -381,5 +448,6 @@ def rules(ctx):
         Rule("R13.c", "explicit casts between nominal wrapper and underlying type are accepted in both directions", 5, r13c),
         Rule("R13.d", "distinction-losing equivalence is called only from cast/codegen sites (who-may-call, resolved)", 8, r13d),
         Rule("R13.f", "binary operations: a nominal wrapper has no common type with its own sized underlying type (has_semantics_of), literals excepted", 20, r13f),
+        Rule("R13.g", "assignments are decided by expect_match(value -> destination) unless the destination is weakly typed (plain-assignment arm of infer_expr evaluated on nominal pairs)", 10, r13g),
         Rule("R13.e", "nested nominal pairs keep their identity on the acceptance path", 3, r13e),
     ]
